@@ -1,4 +1,4 @@
 SPECIFICATION Spec
-CONSTANTS S1 = 7 S2 = 7 S3 = 0  MaxV = 1  Start = "Holes"  Strict = FALSE  Cross = FALSE  Close = FALSE  LabelBoundary = TRUE
+CONSTANTS S1 = 7 S2 = 7 S3 = 0  MaxV = 1  Start = "Holes"  Strict = FALSE  Cross = FALSE  Close = FALSE  LabelBoundary = TRUE  RankByArray = FALSE  Coarse = 1
 CHECK_DEADLOCK FALSE
 INVARIANT OneSetPerRegion
